@@ -16,6 +16,12 @@ Monitors:
  (iv)  shared-state fingerprint before/after (reported; a violation only together with
        a differing result).
 """
+import os as _os
+import sys as _sys
+
+if _os.environ.get("VF_NO_CET") == "1" and "xml.etree.ElementTree" not in _sys.modules:
+    _sys.modules["_elementtree"] = None  # child interpreters run without the C accelerator when their shard does
+
 import io
 import json
 import warnings
